@@ -3,13 +3,14 @@
    introduces a map, an implicit-presence field, a proto2 file, a duplicate or out-of-range field
    number, this file no longer compiles. *)
 From Coq Require Import String ZArith List.
-From EC Require Import Model.Wire Model.ProtoSchema Gen.Schema.
+From EC Require Import Model.Wire Model.ProtoSchema Gen.Schema Proofs.ProtoCanonProofs.
 Import ListNotations.
 Open Scope Z_scope.
 
 Theorem C09_generated_schema_ok :
-  schema_canonical_ok Gen.Schema.schema = true /\ schema_wf Gen.Schema.schema = true.
-Proof. split; vm_compute; reflexivity. Qed.
+  schema_canonical_ok Gen.Schema.schema = true /\ schema_wf Gen.Schema.schema = true /\
+  schema_unpacked Gen.Schema.schema = true.
+Proof. repeat split; vm_compute; reflexivity. Qed.
 Print Assumptions C09_generated_schema_ok.
 
 (* the test schema is well formed too (it deliberately contains one message that the canonical
